@@ -230,9 +230,30 @@ func snapshot(self string) Snapshot {
 		s.G[id] = st + " @ " + top
 		if !blockedSt[st] {
 			s.Settled = false
+		} else if (st == "sync.Mutex.Lock" || st == "sync.RWMutex.RLock" || st == "sync.RWMutex.Lock") && harnessLock(lines) {
+			// blocked on a mutex of the HARNESS (recorder, controller): a goroutine that was just released and is about to
+			// record something - it will run on in a moment, this is not rest
+			s.Settled = false
 		}
 	}
 	return s
+}
+
+// harnessLock: the innermost frame that is neither runtime nor sync belongs to the harness (not to dapr/kit).
+func harnessLock(lines []string) bool {
+	if len(lines) < 3 {
+		return false
+	}
+	for _, l := range strings.Split(lines[1]+"\n"+lines[2], "\n") {
+		if strings.HasPrefix(l, "\t") || l == "" {
+			continue
+		}
+		if strings.HasPrefix(l, "sync.") || strings.HasPrefix(l, "runtime.") || strings.HasPrefix(l, "internal/") {
+			continue
+		}
+		return strings.Contains(l, "verifharness/") && !strings.Contains(l, "github.com/dapr/kit/")
+	}
+	return false
 }
 
 func sameG(a, b map[string]string) bool {
@@ -255,16 +276,23 @@ func (c *Controller) Quiesce(timeout time.Duration) (Snapshot, error) {
 	deadline := time.Now().Add(timeout)
 	var prev Snapshot
 	havePrev := false
+	same := 0
 	for {
 		runtime.Gosched()
 		s := snapshot(self)
 		if s.Settled {
 			if havePrev && sameG(prev.G, s.G) {
-				return s, nil
+				same++
+				if same >= 2 { // three identical settled snapshots in a row
+					return s, nil
+				}
+			} else {
+				same = 0
 			}
 			prev, havePrev = s, true
 		} else {
 			havePrev = false
+			same = 0
 		}
 		if time.Now().After(deadline) {
 			return s, fmt.Errorf("no quiescence within %s", timeout)
